@@ -45,6 +45,18 @@ func (c *canonizer) of(v string) string {
 	return x
 }
 
+// alias names a near miss of a known version (v3~lower, ...), so that it prints
+// the same way in every run.
+func (c *canonizer) alias(m, of string, kind int64) {
+	if _, ok := c.m[m]; ok {
+		return
+	}
+	name := c.of(of) + map[int64]string{3: "~case", 4: "~blank", 5: "~cut"}[kind]
+	c.m[m] = name
+	c.order = append(c.order, m)
+	sort.SliceStable(c.order, func(i, j int) bool { return len(c.order[i]) > len(c.order[j]) })
+}
+
 // register makes the versions of an outcome known before it is printed.
 func (c *canonizer) register(o *outcome) {
 	if o == nil {
